@@ -18,19 +18,23 @@ TReset == /\ IsEv("reset")
           /\ LET n == Rec[l].n IN
              /\ log' = [i \in 1..n |-> [s |-> Root, q |-> i - 1]]
              /\ side' = [t \in Threads |-> IF t = Root THEN [i \in 1..n |-> i - 1] ELSE <<>>]
-             /\ next' = [t \in Threads |-> IF t = Root THEN n ELSE -1]
+             /\ next' = [t \in Threads |-> IF t = Root /\ ~Rec[l].cold THEN n ELSE -1]
              /\ acked' = {<<Root, i - 1>> : i \in 1..n}
           /\ mtx' = None /\ pc' = [w \in Writers |-> "idle"]
           /\ cur' = [w \in Writers |-> [t |-> Root, q |-> -1]]
           /\ exists' = {Root} /\ up' = TRUE /\ crashes' = 0
           /\ runs' = [s \in Sessions |-> <<>>]
+          /\ UNCHANGED <<tseq, tmtx, pump>>
 
 TPre == /\ IsEv("log.pre")
         /\ LET w == W(Rec[l].actor)  t == Rec[l].stream  q == Rec[l].seq IN
            \/ (t \in Threads /\ Pre(w, t) /\ cur'[w].q = q)
+           \/ (PreLoaded(w) /\ cur[w].t = t /\ cur[w].q = q)
            \/ (t = Child /\ q = 0 /\ CreatePre(w))
            \/ (t = Child /\ q = 1 /\ LineagePre(w))
 
+TLoad == IsEv("nextseq.loaded") /\ LET w == W(Rec[l].actor) IN
+            Load(w, Rec[l].stream) /\ cur'[w].q = Rec[l].value
 TFlush == IsEv("log.flushed") /\ LET w == W(Rec[l].actor) IN
             Flush(w) /\ cur[w].t = Rec[l].stream /\ cur[w].q = Rec[l].seq
 TCache == IsEv("cache.exit") /\ Cache(W(Rec[l].actor))
@@ -40,11 +44,11 @@ TFin   == IsEv("api.return") /\ LET w == W(Rec[l].actor) IN
 \* points that are finer than the model's actions: consumed, no state change
 Silent == {"op.start", "log.enter", "log.body", "cache.enter", "cache.full.flushed", "cache.seek", "cache.msgidx",
            "cache.mr.flushed", "cache.mr.seek", "cache.mr.msgidx", "cache.mr.ord", "cache.comp.flushed",
-           "cache.comp.idx", "index.tmp", "index.renamed", "nextseq.loaded", "rebuild.enter",
+           "cache.comp.idx", "index.tmp", "index.renamed", "rebuild.enter",
            "rebuild.truncated", "rebuild.exit"}
 TSilent == l <= Len(Rec) /\ Rec[l].ev \in Silent /\ l' = l + 1 /\ UNCHANGED vars
 
-TNext == TReset \/ TPre \/ TFlush \/ TCache \/ TFin \/ TSilent
+TNext == TReset \/ TPre \/ TLoad \/ TFlush \/ TCache \/ TFin \/ TSilent
 TSpec == TInit /\ [][TNext]_tvars
 
 Accepted == LET d == TLCGet("stats").diameter IN
